@@ -17,4 +17,14 @@ UNITS = [
          props=['C07', 'C19'], typevars={'_T': 'Token'}, ghost=TS_GHOST),
     Unit('l0.caches', ['token_store.py'], 'l0_token_store.py', [('_StoreBlock', 'rebuild'), ('_StoreBlock', 'from_tokens')], lemmas=['fold_frame'], aspect='cache',
          props=['C08'], typevars={'_T': 'Token'}, ghost=TS_GHOST),
+    Unit('l1.tokens', ['token_store.py', 'models/base.py', 'models/internal/base_token_models.py', 'models/block_comment.py'], 'l1_tokens.py',
+         [(None, '_token_size'), ('Position', '__iadd__'), ('Token', '__init__'), ('Token', '_update_raw_text'), ('Token', 'raw_text', 'setter'), ('TokenStore', 'update'),
+          ('SingleValueRawTokenModel', '__init__'), ('SingleValueRawTokenModel', 'from_raw_text'), ('SingleValueRawTokenModel', 'from_value'),
+          ('SingleValueRawTokenModel', 'raw_text', 'setter'), ('SingleValueRawTokenModel', 'value', 'setter'), ('SingleValueRawTokenModel', '_clone'),
+          ('SimpleRawTokenModel', '_clone'),
+          ('BlockComment', 'raw_text', 'setter'), ('BlockComment', 'value', 'setter'), ('BlockComment', 'indent', 'setter'), ('BlockComment', 'claimed', 'setter'),
+          ('BlockComment', '_clone'), ('BlockComment', 'from_raw_text'), ('BlockComment', 'from_value')],
+         props=['C02', 'C08', 'C12', 'C19'], typevars={'_T': 'Token', '_V': 'object'},
+         field_types={'SingleValueRawTokenModel': {'_value': 'INT'}, 'BlockComment': {'_value': 'STR', '_indent': 'STR', '_claimed': 'BOOL'}},
+         note='parse/fmt/bc_* codecs are uninterpreted: the setters are verified for every codec; concrete codecs are checked under C12'),
 ]
